@@ -53,14 +53,19 @@ CLAIMED['C14'] = dict(
         "rejected without change when frozen / duplicate), by the unknown-spec setters and freeze; that "
         "get_macro/environment/specials_spec return the definition of the first category in order that defines the "
         "name, else the unknown spec; that test_for_specials returns a longest match over all categories (two nested "
-        "loop invariants); and that extended_with returns a new frozen database satisfying the invariant with the "
-        "documented view while leaving its parent's category list, dictionaries and chain maps unchanged. "
+        "loop invariants); that extended_with returns a new frozen database satisfying the invariant with the "
+        "documented view while leaving its parent's category list, dictionaries and chain maps unchanged; and that "
+        "filtered_context never raises, returns a new database satisfying the invariant whose category order is exactly "
+        "the kept sub-sequence of the parent's (loop invariant over a counting function K and its inverse, with the "
+        "inductive facts about K proved in a lemma unit), whose kept categories define what they defined in the parent for "
+        "the kept kinds and nothing for the others, and leaves the parent unchanged. Every contract now states the whole "
+        "view (the other categories keep their definitions, the new category defines exactly the given specs). "
         "Induction over build histories = the invariant.",
    ref="DESIGN.md section 5, C14",
    note=NOTE + "; A-DB: dict(...) of a comprehension over specs is a fresh dictionary of unknown content, ChainMap looks "
-        "keys up through .maps in order, a specials spec is stored under its own specials_chars; not covered: "
-        "filtered_context, iter_*_specs, auto-generated category names (_get_new_autogen_category assumed), 'first "
-        "among equally long' specials")
+        "keys up through .maps in order, a specials spec is stored under its own specials_chars; every dictionary of a database stores each spec under the spec's own "
+        "name (so that re-keying d.values() gives d's content); not covered: iter_*_specs, "
+        "_get_new_autogen_category (assumed to return an unused internal name), 'first among equally long' specials")
 
 CLAIMED['C17'] = dict(
    text="Unbounded proof that a state derived by sub_context() satisfies PS_inv (every cached table equals the value a "
